@@ -161,3 +161,47 @@ def kwarg(call: ast.Call, name: str, pos: Optional[int] = None) -> Optional[ast.
 
 def floc(f: FuncInfo, node: Optional[ast.AST] = None) -> Tuple[str, int]:
     return f.module.rel, getattr(node, 'lineno', f.node.lineno) if node is not None else f.node.lineno
+
+
+def ctor_forwarding(prog: Program, ci) -> Tuple[List[str], List[Tuple[int, str]]]:
+    """(options forwarded, problems): every parameter of `ci.__init__` that the base class constructor also takes is handed to
+    `super().__init__` under its own name, as itself.  An option that is accepted but not forwarded is silently ignored (the base
+    class default is used instead)."""
+    from ..model import ClassInfo
+    init = ci.methods.get('__init__')
+    if init is None:
+        return [], []
+    base_init = None
+    for c in prog.mro(ci)[1:]:
+        if isinstance(c, ClassInfo) and '__init__' in c.methods:
+            base_init = c.methods['__init__']
+            break
+    if base_init is None:
+        return [], []
+    own = [p.arg for p in init.params[1:]]
+    base_p = {p.arg for p in base_init.params[1:]}
+    calls = [x for x in walk_own(init.node) if isinstance(x, ast.Call) and isinstance(x.func, ast.Attribute) and x.func.attr == '__init__'
+             and isinstance(x.func.value, ast.Call) and dotted(x.func.value.func) == 'super']
+    if len(calls) != 1:
+        return [], [(init.node.lineno, f'{len(calls)} super().__init__ calls')]
+    call = calls[0]
+    if any(k.arg is None for k in call.keywords) or any(isinstance(a, ast.Starred) for a in call.args):
+        return sorted(set(own) & base_p), []        # **kwargs forwarding: everything goes through
+    passed = {k.arg: k.value for k in call.keywords}
+    bpos = [p.arg for p in base_init.node.args.args[1:]]
+    for i, a in enumerate(call.args):
+        if i < len(bpos):
+            passed[bpos[i]] = a
+    fwd, problems = [], []
+    for name in own:
+        if name not in base_p:
+            continue
+        v = passed.get(name)
+        if v is None:
+            problems.append((call.lineno, f'constructor option `{name}` is accepted by {ci.name} but not handed to {base_init.cls.name}.__init__: it is '
+                             f'silently ignored and the default is used'))
+        elif not (isinstance(v, ast.Name) and v.id == name):
+            problems.append((call.lineno, f'constructor option `{name}` is forwarded as `{norm(v)[:50]}`, not as given'))
+        else:
+            fwd.append(name)
+    return sorted(fwd), problems
